@@ -136,6 +136,37 @@ def f16(d):
     z = [y for _ in range(2)]
     d["y"] = 0
     return z, y
+
+
+class _A(dict):
+    pass
+
+
+def f17(d):
+    t = type(d)
+    d = _A(d)
+    return t.__name__, type(d).__name__, t is type(d)
+
+
+def f18(d):
+    t = type(d)
+    u = type(d.get("s"))
+    if t is u:
+        return "same " + t.__name__
+    names = [t.__name__ for _ in range(2)]
+    raise TypeError(f"{t.__name__} {u.__name__} {names}")
+
+
+def f19(d):
+    ok = isinstance(d.get("x"), int)
+    d["x"] = "now a string"
+    return ok, isinstance(d["x"], int)
+
+
+def f20(d):
+    k = isinstance(d, dict)
+    d["k"] = k
+    return k, k
 '''
 import ast, copy, sys
 from pathlib import Path
